@@ -7,7 +7,7 @@ open Afkak.Consts Afkak.Monitor.ProducerTrace
 /-- forget the fields the batch relation does not read -/
 def norm (t : Track) : Track :=
   { t with fired := [], timersSinceReset := 0, sends := [], nextSid := 0, cancelledQueued := [], acct := true,
-           lateCancel := false }
+           lateCancel := false, acct0 := true }
 
 theorem norm_idem (t : Track) : norm (norm t) = norm t := rfl
 
